@@ -37,6 +37,13 @@ pub mod io {
     /// R13: `impl Read for X` blocks are extracted as inherent impls; the trait is only a name
     pub trait Read { }
     pub trait BufRead { }
+    /// std::io::copy: streams a reader into a writer.  WEAK ASSUMED CONTRACT: nothing is said
+    /// about what reaches the file system (the reader/writer types are not modelled), so no
+    /// frame or content fact survives a call — a unit that relies on one cannot be proved.
+    #[verifier::external_body]
+    pub fn copy<R, W>(reader: &mut R, writer: &mut W, Tracked(w): Tracked<&mut crate::spec::World>) -> (r: Result<u64>)
+        ensures crate::spec::hist_ext(*old(w), *final(w)), final(w).healthy == old(w).healthy, crate::spec::world_wf(*old(w)) ==> crate::spec::world_wf(*final(w))
+    { unimplemented!() }
 
     /// `BufRead::lines` of a byte sequence, as the items the iterator yields when no read
     /// fails.  ASSUMED (std): split at b'\n', strip one trailing "\r" of a terminated line, a
@@ -145,8 +152,60 @@ pub mod fs {
                 }
         { unimplemented!() }
     }
+    impl File {
+        /// creat(2): creates or truncates.  The file is empty afterwards; nothing else changes.
+        #[verifier::external_body]
+        pub fn create<A: PathArg>(p: A, Tracked(w): Tracked<&mut World>) -> (r: io::Result<File>)
+            ensures
+                old(w).healthy == final(w).healthy, world_wf(*old(w)) ==> world_wf(*final(w)), hist_ext(*old(w), *final(w)),
+                r is Err ==> final(w).fs == old(w).fs && final(w).hist == old(w).hist,
+                r is Ok ==> final(w).fs == (Fs { files: old(w).fs.files.insert(resolve(old(w).fs, p.pathv()), Seq::<u8>::empty()), ..old(w).fs })
+                    && final(w).hist == old(w).hist.push(final(w).fs)
+                    && r->Ok_0@.path == resolve(old(w).fs, p.pathv()) && r->Ok_0@.pos == 0
+                    && r->Ok_0@.mode == (OpenMode { read: false, write: true, append: false, create: true, truncate: true }),
+        { unimplemented!() }
+        /// fstat(2)
+        #[verifier::external_body]
+        pub fn metadata(&self) -> (r: io::Result<Metadata>) { unimplemented!() }
+        #[verifier::external_body]
+        pub fn sync_all(&self) -> (r: io::Result<()>) { unimplemented!() }
+    }
+    /// std::fs::write: create/truncate + write_all; on failure the file may hold any prefix
+    #[verifier::external_body]
+    pub fn write<A: PathArg, D: crate::shims::bytes::BytesArg>(p: A, data: D, Tracked(w): Tracked<&mut World>) -> (r: io::Result<()>)
+        ensures
+            old(w).healthy == final(w).healthy, world_wf(*old(w)) ==> world_wf(*final(w)), hist_ext(*old(w), *final(w)),
+            same_except(old(w).fs, final(w).fs, resolve(old(w).fs, p.pathv())) && final(w).fs.dirs == old(w).fs.dirs,
+            forall|i: int| old(w).hist.len() <= i < final(w).hist.len() ==> same_except(old(w).fs, #[trigger] final(w).hist[i], resolve(old(w).fs, p.pathv())),
+            r is Ok ==> final(w).fs.files.contains_key(resolve(old(w).fs, p.pathv())) && final(w).fs.files[resolve(old(w).fs, p.pathv())] == data.bytes(),
+    { unimplemented!() }
+    /// std::fs::read_to_string: the whole file, or Err(InvalidData) if it is not UTF-8
+    #[verifier::external_body]
+    pub fn read_to_string<A: PathArg>(p: A, Tracked(w): Tracked<&World>) -> (r: io::Result<String>)
+        ensures
+            r is Ok ==> readable(w.fs, p.pathv()) && utf8(r->Ok_0@) == bytes_at(w.fs, p.pathv()),
+            r is Err && !exists_at(w.fs, p.pathv()) ==> r->Err_0.spec_kind() == io::ErrorKind::NotFound,
+    { unimplemented!() }
+    /// rename(2)
+    #[verifier::external_body]
+    pub fn rename<A: PathArg, B: PathArg>(from: A, to: B, Tracked(w): Tracked<&mut World>) -> (r: io::Result<()>)
+        ensures
+            old(w).healthy == final(w).healthy, world_wf(*old(w)) ==> world_wf(*final(w)), hist_ext(*old(w), *final(w)),
+            r is Err ==> final(w).fs == old(w).fs && final(w).hist == old(w).hist,
+            r is Ok ==> old(w).fs.files.contains_key(from.pathv())
+                && final(w).fs == (Fs { files: old(w).fs.files.remove(from.pathv()).insert(to.pathv(), old(w).fs.files[from.pathv()]), links: old(w).fs.links.remove(to.pathv()), ..old(w).fs })
+                && final(w).hist == old(w).hist.push(final(w).fs),
+    { unimplemented!() }
     #[verifier::external_body]
     pub struct Metadata { m: u8 }
+    impl Metadata {
+        #[verifier::external_body]
+        pub fn len(&self) -> u64 { unimplemented!() }
+        #[verifier::external_body]
+        pub fn is_dir(&self) -> bool { unimplemented!() }
+        #[verifier::external_body]
+        pub fn is_file(&self) -> bool { unimplemented!() }
+    }
     /// stat(2) (follows symbolic links)
     #[verifier::external_body]
     pub fn metadata<A: PathArg>(p: A, Tracked(w): Tracked<&World>) -> (r: io::Result<Metadata>)
